@@ -329,19 +329,32 @@ pub fn reply_frame(id: SeqId, r: &Reply) -> Vec<u8> {
     let m = r.marker;
     match r.cf {
         CF_INTERMEDIATE => rc::intermediate(m, if m % 3 == 0 { Some(m % 100) } else { None }),
+        // every eighth marker makes the packet long enough for the extended
+        // (5-byte) APDU header and for 2-/3-byte BER lengths
         CF_STATUS => rc::status_info(&rc::Status {
             result_code: Some(0),
             amount: Some(m as u64 * 7 + 1),
             receipt: Some(m as u64 + 1),
             trace: if m % 2 == 0 { Some(m as u64 + 900) } else { None },
             currency: Some(978),
+            text: if m % 8 == 7 { Some(long_text(m, 200 + m as usize * 3)) } else { None },
             ..rc::Status::default()
         }),
-        CF_PRINT_LINE => rc::print_line(m, format!("line {m}").as_bytes()),
-        CF_PRINT_BLOCK => rc::print_text_block(
-            m % 4,
-            &[format!("block {m}").into_bytes(), b"second line".to_vec()],
-        ),
+        CF_PRINT_LINE => {
+            if m % 8 == 7 {
+                rc::print_line(m, &long_text(m, 250 + m as usize))
+            } else {
+                rc::print_line(m, format!("line {m}").as_bytes())
+            }
+        }
+        CF_PRINT_BLOCK => {
+            if m % 8 == 7 {
+                let lines: Vec<Vec<u8>> = (0..(6 + m as usize % 30)).map(|i| long_text(m.wrapping_add(i as u8), 40)).collect();
+                rc::print_text_block(m % 4, &lines)
+            } else {
+                rc::print_text_block(m % 4, &[format!("block {m}").into_bytes(), b"second line".to_vec()])
+            }
+        }
         CF_SET_TIME => rc::set_time_and_date(230_000 + m as u64 % 100, 120_000 + m as u64 % 60),
         CF_REQUEST_DATA => rc::request_for_data(Some(0x13), Some(m as u32), true, true),
         CF_COMPLETION => match id {
@@ -370,6 +383,10 @@ pub fn reply_frame(id: SeqId, r: &Reply) -> Vec<u8> {
         },
         (c, i) => rc::apdu((c, i), &[m]),
     }
+}
+
+fn long_text(m: u8, n: usize) -> Vec<u8> {
+    (0..n).map(|i| b'A' + ((i + m as usize) % 26) as u8).collect()
 }
 
 /// Debug rendering of `frame` decoded on its own by every shipped packet
